@@ -573,6 +573,14 @@ func (a *ArgvGen) unknownTok() string {
 			}
 		}
 	}
+	if a.spec.Mode == ModeBundling && rapid.IntRange(0, 5).Draw(t, "unkaftervalued") == 0 {
+		// a value-taking declared letter followed by an undeclared one in the same bundle
+		for _, k := range a.keysHere() {
+			if len([]rune(k)) == 1 && k != "-" && !a.cur.Visible[k].Spec.Kind.IsFlag() {
+				return "-" + k + rapid.SampledFrom([]string{"Q", "W", "Z"}).Draw(t, "unkletter")
+			}
+		}
+	}
 	if rapid.IntRange(0, 3).Draw(t, "unkval") == 0 {
 		tok += "=" + sampled(t, "unkv", []string{"val", "1", "a=b", "-x", "a b"})
 	}
